@@ -133,7 +133,7 @@ func (evt *startEvent) NextAction(ctx context.Context, flow Flow) chan IAction {
 		go evt.run(ctx, sender)
 	})
 
-	response := make(chan IAction)
+	response := make(chan IAction, 1)
 	evt.mch <- nextActionMessage{response: response, flow: flow}
 	return response
 }
